@@ -134,6 +134,10 @@ structure Run (V : Type) where
   /-- `env_flag("RTEN_USE_POOL", true)`. -/
   usePool : Bool := true
 
+/-- `supplied_ids.contains(id)`: was a value supplied for `id` by the caller (owned or view)? -/
+def Run.isInput {V : Type} (r : Run V) (id : Nat) : Bool :=
+  (r.borrowed id).isSome || r.owned.any (fun e => e.1 == id)
+
 /-- One value handed out mutably. `pos = some p`: in-place operand at input position `p`;
 `pos = none`: moved into the subgraph's by-value capture map. -/
 structure Take (V : Type) where
@@ -341,12 +345,15 @@ def collect {V : Type} (r : Run V) (st : St V) (takenPos : List Nat) :
       | none => none
       | some v => (collect r st takenPos rest (pos + 1)).map (some v :: ·)
 
-/-- `temp_values.extend(output_ids.zip(outputs))`. -/
-def storeOutputs {V : Type} (opId : Nat) : Temps V → List (Option Nat) → List V → Temps V
+/-- `temp_values.extend(output_ids.zip(outputs))`, never under an id the caller supplied a value
+for (fix 204e787: supplied values take precedence over operator outputs with the same id). -/
+def storeOutputs {V : Type} (r : Run V) (opId : Nat) : Temps V → List (Option Nat) → List V → Temps V
   | ts, [], _ => ts
   | ts, _, [] => ts
-  | ts, none :: ids, _ :: vs => storeOutputs opId ts ids vs
-  | ts, some id :: ids, v :: vs => storeOutputs opId (tInsert ts id (.opOut opId) v) ids vs
+  | ts, none :: ids, _ :: vs => storeOutputs r opId ts ids vs
+  | ts, some id :: ids, v :: vs =>
+    if r.isInput id then storeOutputs r opId ts ids vs
+    else storeOutputs r opId (tInsert ts id (.opOut opId) v) ids vs
 
 /-- Post-step decrement and release. -/
 def decDeps {V : Type} (usePool : Bool) : St V → List Nat → St V
@@ -380,7 +387,7 @@ def step {V : Type} (var : Variant) (ops : Ops V) (r : Run V) (st : St V) (k opI
         | some outs =>
           if outs.length < o.outputs.length then (st3, some (.opErr k))
           else
-            let st4 := { st3 with temps := storeOutputs opId st3.temps o.outputs outs }
+            let st4 := { st3 with temps := storeOutputs r opId st3.temps o.outputs outs }
             (decDeps r.usePool st4 (opDeps o), none)
   | _ => (st, some .planErr)
 
@@ -416,16 +423,19 @@ def collectOutputs {V : Type} (r : Run V) : St V → List Nat → Option (List (
         | some (org, v) =>
           (collectOutputs r { st with temps := tRemove st.temps o } os).map ((o, .moved org, v) :: ·)
 
-/-- Owned inputs are moved into `temp_values`. -/
-def initTemps {V : Type} : Temps V → List (Nat × V) → Temps V
+/-- Owned inputs are moved into `temp_values` — except a value supplied for a constant node,
+which stays in `inputs` and is never looked at (fix 204e787: constants always win). -/
+def initTemps {V : Type} (g : G) : Temps V → List (Nat × V) → Temps V
   | ts, [] => ts
-  | ts, (id, v) :: rest => initTemps (tInsert ts id .ownedIn v) rest
+  | ts, (id, v) :: rest =>
+    if g.node id = .constant then initTemps g ts rest
+    else initTemps g (tInsert ts id .ownedIn v) rest
 
 def initSt {V : Type} (r : Run V) (plan outs : List Nat) : Option (St V) :=
   match incPlan r.g (fun _ => 0) plan with
   | none => none
   | some rc =>
-    some { temps := initTemps [] r.owned, rc := incOuts rc outs, capTake := r.envTake, recs := [] }
+    some { temps := initTemps r.g [] r.owned, rc := incOuts rc outs, capTake := r.envTake, recs := [] }
 
 /-- Everything observable about one `run_plan` call. -/
 structure Result (V : Type) where
